@@ -1,8 +1,17 @@
+import PqModel.XxHash
+
+/-! # Split-block bloom filter (C07)
+
+MIRROR of `bloom/block.go:5-28` (words, block, salts), `bloom/block_optimized.go:27-50`
+(`Insert`, `Check`), `bloom/bloom.go:4-6` (`fasthash1x64`), `bloom/filter.go:22-94`
+(`MakeSplitBlockFilter`, `Insert`, `InsertBulk`, `Check`, `Bytes`, `CheckSplitBlock`) and of the two
+hashing sides in `bloom.go` (`Value.hash` 55-66; `splitBlockEncoding.Encode*` 249-368).
+The spec-side check ("every mask bit is set", BloomFilter.md) is `blockCheck`; the Go form
+(`word & mask != 0`) is `blockCheckGo`; they are proved equal. -/
 namespace PqModel.Bloom
+open PqModel.XxHash
 
-/-! Spike: split-block bloom filter has no false negatives; truncation bounds. -/
-
-/-! ## Bloom -/
+/-! ## blocks and filters over 64-bit hashes -/
 
 def salts : List (BitVec 32) :=
   [0x47b6137b#32, 0x44974d91#32, 0x8824ad5b#32, 0xa2b7289d#32, 0x705495c7#32, 0x2df1424b#32, 0x9efc4947#32, 0x5c6bfb31#32]
@@ -21,6 +30,10 @@ def blockCheck (b : Block) (x : BitVec 32) : Bool :=
 
 /-- fasthash1x64: ((x >>> 32) * n) >>> 32 -/
 def blockIndex (x : BitVec 64) (n : Nat) : Nat := ((x >>> 32).toNat * n) >>> 32
+
+/-- MIRROR `fasthash1x64(value, int32(len(f)))`, bloom/bloom.go:4-6, in 64-bit wraparound arithmetic;
+    `n` is the block count after the `int32` conversion (0 ≤ n < 2^31 for filters below 64 GiB). -/
+def blockIndexGo (x : BitVec 64) (n : Nat) : Nat := (((x >>> 32) * BitVec.ofNat 64 n) >>> 32).toNat
 
 abbrev Filter := List Block
 
@@ -86,7 +99,7 @@ theorem blockCheck_mono (b : Block) (x y : BitVec 32) (hb : WfBlock b) (h : bloc
   zipCheck_mono b (mask x) (mask y) (by rw [hb, mask_length]) (by rw [mask_length, mask_length]) h
 
 theorem blockInsert_wf (b : Block) (x : BitVec 32) (hb : WfBlock b) : WfBlock (blockInsert b x) := by
-  simp [WfBlock, blockInsert, hb, mask_length] at *
+  simp [WfBlock, blockInsert, mask_length] at *
   omega
 
 theorem setAt_length {α} : ∀ (l : List α) i f, (setAt l i f).length = l.length
@@ -135,6 +148,21 @@ theorem blockIndex_lt (x : BitVec 64) (n : Nat) (hn : 0 < n) : blockIndex x n < 
   apply Nat.div_lt_of_lt_mul
   calc (x >>> 32).toNat * n < 2 ^ 32 * n := Nat.mul_lt_mul_of_pos_right hx hn
 
+/-- no wraparound happens in `fasthash1x64` for any block count that fits 32 bits -/
+theorem blockIndexGo_eq (x : BitVec 64) (n : Nat) (hn : n < 2 ^ 32) : blockIndexGo x n = blockIndex x n := by
+  unfold blockIndexGo blockIndex
+  have hx : (x >>> 32).toNat < 2 ^ 32 := by
+    rw [BitVec.toNat_ushiftRight, Nat.shiftRight_eq_div_pow]
+    have := x.isLt
+    apply Nat.div_lt_of_lt_mul
+    omega
+  rw [BitVec.toNat_ushiftRight, BitVec.toNat_mul, BitVec.toNat_ofNat]
+  have h1 : n % 2 ^ 64 = n := Nat.mod_eq_of_lt (by omega)
+  have h2 : (x >>> 32).toNat * n < 2 ^ 64 := by
+    calc (x >>> 32).toNat * n < 2 ^ 32 * 2 ^ 32 := Nat.mul_lt_mul'' hx hn
+      _ = 2 ^ 64 := by decide
+  rw [h1, Nat.mod_eq_of_lt h2]
+
 theorem check_insert (f : Filter) (h : BitVec 64) (hf : WfFilter f) : check (bfInsert f h) h = true := by
   unfold check bfInsert
   rw [setAt_length, setAt_get]
@@ -181,6 +209,396 @@ theorem no_false_negative (f : Filter) (hf : WfFilter f) : ∀ (hs : List (BitVe
       exact this gs _ (insert_wf f h hf) h0
     · exact ih (bfInsert f g) (insert_wf f g hf) h hm
 
-#print axioms no_false_negative
+/-! ## the Go form of the block check (`word & mask != 0`) -/
+
+/-- MIRROR `Block.Check`, block_optimized.go:40-50 -/
+def blockCheckGo (b : Block) (x : BitVec 32) : Bool :=
+  (List.zipWith (fun w m => (w &&& m) != 0#32) b (mask x)).all id
+
+theorem getLsbD_oneShl (k i : Nat) (hk : k < 32) (hi : i < 32) :
+    (1#32 <<< k).getLsbD i = decide (i = k) := by
+  simp only [BitVec.getLsbD_shiftLeft, BitVec.getLsbD_one]
+  by_cases h : i = k
+  · subst h; simp [hi]
+  · by_cases h2 : i < k
+    · simp [h2, h]
+    · have : ¬ (i - k = 0) := by omega
+      simp [this, h]
+
+theorem single_bit_check (w : BitVec 32) (k : Nat) (hk : k < 32) :
+    ((w &&& (1#32 <<< k)) != 0#32) = ((w &&& (1#32 <<< k)) == (1#32 <<< k)) := by
+  have hm : (1#32 <<< k) ≠ 0#32 := by
+    intro h
+    have := congrArg (fun v => v.getLsbD k) h
+    simp only [getLsbD_oneShl k k hk hk] at this
+    simp at this
+  by_cases hb : w.getLsbD k = true
+  · have e : (w &&& (1#32 <<< k)) = (1#32 <<< k) := by
+      apply bv_ext32; intro i hi
+      rw [BitVec.getLsbD_and, getLsbD_oneShl k i hk hi]
+      by_cases h : i = k
+      · subst h; simp [hb]
+      · simp [h]
+    rw [e]; simp [hm]
+  · have e : (w &&& (1#32 <<< k)) = 0#32 := by
+      apply bv_ext32; intro i hi
+      rw [BitVec.getLsbD_and, getLsbD_oneShl k i hk hi]
+      by_cases h : i = k
+      · subst h; simp at hb; simp [hb]
+      · simp [h]
+    rw [e]
+    have : (0#32 == 1#32 <<< k) = false := by
+      simp only [beq_eq_false_iff_ne, ne_eq]; exact fun h => hm h.symm
+    rw [this]; simp
+
+theorem maskShift_lt (x salt : BitVec 32) : ((x * salt) >>> 27).toNat < 32 := by
+  rw [BitVec.toNat_ushiftRight, Nat.shiftRight_eq_div_pow]
+  have := (x * salt).isLt
+  omega
+
+theorem zipGo_eq : ∀ (b : Block) (ss : List (BitVec 32)) (x : BitVec 32),
+    (List.zipWith (fun w m => (w &&& m) != 0#32) b (ss.map (maskWord x))).all id =
+    (List.zipWith (fun w m => (w &&& m) == m) b (ss.map (maskWord x))).all id
+  | [], _, _ => by simp
+  | _ :: _, [], _ => by simp
+  | w :: ws, s :: ss, x => by
+    simp only [List.map_cons, List.zipWith_cons_cons, List.all_cons, id]
+    rw [zipGo_eq ws ss x]
+    unfold maskWord
+    rw [single_bit_check w _ (maskShift_lt x s)]
+
+/-- the Go check and the spec check are the same function -/
+theorem blockCheckGo_eq (b : Block) (x : BitVec 32) : blockCheckGo b x = blockCheck b x :=
+  zipGo_eq b salts x
+
+/-! ## construction and serialisation -/
+
+def emptyBlock : Block := List.replicate 8 0#32
+
+/-- `make(SplitBlockFilter, n)` / a zeroed byte buffer of `32*n` bytes seen through
+    `MakeSplitBlockFilter` (filter.go:24-26) -/
+def emptyFilter (n : Nat) : Filter := List.replicate n emptyBlock
+
+/-- `InsertBulk` (filter_default.go:5-9): insert one hash after the other -/
+def insertBulk (f : Filter) (hs : List (BitVec 64)) : Filter := hs.foldl bfInsert f
+
+def build (n : Nat) (hs : List (BitVec 64)) : Filter := insertBulk (emptyFilter n) hs
+
+theorem emptyFilter_wf (n : Nat) (hn : 0 < n) : WfFilter (emptyFilter n) := by
+  refine ⟨by simpa [emptyFilter] using hn, ?_⟩
+  intro b hb
+  simp only [emptyFilter, List.mem_replicate] at hb
+  rw [hb.2]; simp [WfBlock, emptyBlock]
+
+theorem insertBulk_wf (f : Filter) (hs : List (BitVec 64)) (hf : WfFilter f) : WfFilter (insertBulk f hs) := by
+  unfold insertBulk
+  induction hs generalizing f with
+  | nil => simpa using hf
+  | cons g gs ih => simp only [List.foldl_cons]; exact ih _ (insert_wf f g hf)
+
+/-- a 32-bit word as it lies in memory / in the file: little endian
+    (`SplitBlockFilter.Bytes`, filter.go:66-68, is a cast of the word array on a little-endian host) -/
+def wordBytes (w : BitVec 32) : List UInt8 := leBytes 4 w.toNat
+
+def blockBytes (b : Block) : List UInt8 := b.flatMap wordBytes
+
+def filterBytes (f : Filter) : List UInt8 := f.flatMap blockBytes
+
+/-- read `n` little-endian 32-bit words -/
+def parseWords : Nat → List UInt8 → List (BitVec 32)
+  | 0, _ => []
+  | n + 1, bs => BitVec.ofNat 32 (leToNat (bs.take 4)) :: parseWords n (bs.drop 4)
+
+/-- MIRROR `CheckSplitBlock`, filter.go:74-80: the filter is `n = len bytes` bytes, block index
+    from `n / 32` blocks, read 32 bytes at `32 * index`, check the low 32 bits of the hash. -/
+def checkBytes (bytes : List UInt8) (h : BitVec 64) : Bool :=
+  let nb := bytes.length / 32
+  let blk := (bytes.drop (32 * blockIndex h nb)).take 32
+  blockCheckGo (parseWords 8 blk) (h.truncate 32)
+
+theorem wordBytes_length (w : BitVec 32) : (wordBytes w).length = 4 := leBytes_length 4 _
+
+theorem flatMap_length_const {α β} (g : α → List β) (k : Nat) :
+    ∀ (l : List α), (∀ a ∈ l, (g a).length = k) → (l.flatMap g).length = k * l.length
+  | [], _ => by simp
+  | a :: as, h => by
+    simp only [List.flatMap_cons, List.length_append, List.length_cons]
+    rw [h a (by simp), flatMap_length_const g k as (fun b hb => h b (by simp [hb])), Nat.mul_succ]
+    omega
+
+theorem blockBytes_length (b : Block) (hb : WfBlock b) : (blockBytes b).length = 32 := by
+  unfold blockBytes
+  rw [flatMap_length_const wordBytes 4 b (fun w _ => wordBytes_length w), hb]
+
+theorem filterBytes_length (f : Filter) (hf : ∀ b ∈ f, WfBlock b) : (filterBytes f).length = 32 * f.length :=
+  flatMap_length_const blockBytes 32 f (fun b hb => blockBytes_length b (hf b hb))
+
+theorem flatMap_slice {α β} (g : α → List β) (k : Nat) :
+    ∀ (l : List α) (i : Nat) (hi : i < l.length), (∀ a ∈ l, (g a).length = k) →
+      ((l.flatMap g).drop (k * i)).take k = g l[i]
+  | a :: as, 0, _, h => by
+    simp only [List.flatMap_cons, Nat.mul_zero, List.drop_zero, List.getElem_cons_zero]
+    rw [← h a (by simp)]
+    exact List.take_left'  rfl
+  | a :: as, i + 1, hi, h => by
+    simp only [List.flatMap_cons, List.getElem_cons_succ]
+    have e : k * (i + 1) = (g a).length + k * i := by rw [h a (by simp), Nat.mul_succ]; omega
+    rw [e, List.drop_length_add_append]
+    exact flatMap_slice g k as i (by simpa using hi) (fun b hb => h b (by simp [hb]))
+
+theorem parseWords_wordBytes : ∀ (ws : List (BitVec 32)), parseWords ws.length (ws.flatMap wordBytes) = ws
+  | [] => rfl
+  | w :: ws => by
+    simp only [List.length_cons, parseWords, List.flatMap_cons]
+    have h4 : (wordBytes w).length = 4 := wordBytes_length w
+    rw [List.take_left' h4, List.drop_left' h4, parseWords_wordBytes ws]
+    unfold wordBytes
+    rw [leToNat_leBytes]
+    congr 1
+    apply BitVec.eq_of_toNat_eq
+    simp only [BitVec.toNat_ofNat]
+    have := w.isLt
+    omega
+
+/-- reading the serialised filter gives the same answers as the in-memory filter -/
+theorem checkBytes_filterBytes (f : Filter) (h : BitVec 64) (hf : WfFilter f) :
+    checkBytes (filterBytes f) h = check f h := by
+  unfold checkBytes check
+  have hl := filterBytes_length f hf.2
+  have hnb : (filterBytes f).length / 32 = f.length := by rw [hl]; omega
+  simp only [hnb]
+  have hlt := blockIndex_lt h f.length hf.1
+  rw [List.getElem?_eq_getElem hlt]
+  unfold filterBytes
+  rw [flatMap_slice blockBytes 32 f _ hlt (fun b hb => blockBytes_length b (hf.2 b hb))]
+  simp only
+  have hb8 : (f[blockIndex h f.length]).length = 8 := hf.2 _ (List.getElem_mem hlt)
+  have := parseWords_wordBytes (f[blockIndex h f.length])
+  rw [hb8] at this
+  unfold blockBytes
+  rw [this, blockCheckGo_eq]
+
+/-! ## the two hashing sides (MIRROR of bloom.go)
+
+A `Value` is a non-null parquet value as `parquet.Value` holds it: a kind tag plus either a 64-bit
+payload (boolean, int32, int64, float and double by bit pattern) or a byte string (int96 = 12
+little-endian bytes, byte array, fixed-length byte array). -/
+
+inductive Kind where
+  | boolean | int32 | int64 | int96 | float | double | byteArray
+  | flba (size : Nat)
+  deriving DecidableEq, Repr
+
+inductive Value where
+  | boolean (b : Bool)
+  | int32 (v : UInt32)
+  | int64 (v : UInt64)
+  | int96 (bytes : List UInt8)
+  | float (bits : UInt32)
+  | double (bits : UInt64)
+  | byteArray (bytes : List UInt8)
+  | flba (bytes : List UInt8)
+  deriving DecidableEq, Repr
+
+def Value.kindOk : Kind → Value → Bool
+  | .boolean, .boolean _ => true
+  | .int32, .int32 _ => true
+  | .int64, .int64 _ => true
+  | .int96, .int96 b => b.length == 12
+  | .float, .float _ => true
+  | .double, .double _ => true
+  | .byteArray, .byteArray _ => true
+  | .flba n, .flba b => b.length == n && 0 < n
+  | _, _ => false
+
+/-- READ SIDE. MIRROR `Value.hash`, bloom.go:55-66 (with `bloom.XXH64` as the hash).
+    `v.byte()` of a boolean value is 0 or 1. -/
+def hashRead : Value → UInt64
+  | .boolean b => sum64Uint8 (if b then 1 else 0)
+  | .int32 v | .float v => sum64Uint32 v
+  | .int64 v | .double v => sum64Uint64 v
+  | .int96 bs | .byteArray bs | .flba bs => xxh64 bs
+
+/-- What `Page.Data()` hands to `splitBlockEncoding` (encoding.Values): booleans are the
+    *bit-packed* bytes of the page (page_boolean.go:46), numeric kinds are the value array, byte
+    arrays are one buffer plus offsets, int96 and fixed-length values are one flat buffer. -/
+inductive PageData where
+  | boolean (bits : List UInt8)
+  | int32 (vs : List UInt32)
+  | int64 (vs : List UInt64)
+  | int96 (data : List UInt8)
+  | float (vs : List UInt32)
+  | double (vs : List UInt64)
+  | byteArray (data : List UInt8) (offsets : List Nat)
+  | flba (data : List UInt8) (size : Nat)
+
+/-- MIRROR of the loop `for i, j := 0, size; j <= len(data); { Sum64(data[i:j]); i += size; j += size }`
+    of `splitBlockEncodeFixedLenByteArray`, bloom.go:311-324; fuel = number of iterations allowed
+    (`data.length` always suffices when `size > 0`; with `size = 0` the Go loop does not terminate). -/
+def chunksFuel : Nat → Nat → List UInt8 → List (List UInt8)
+  | 0, _, _ => []
+  | fuel + 1, size, data =>
+    if size ≤ data.length then data.take size :: chunksFuel fuel size (data.drop size) else []
+
+def chunks (size : Nat) (data : List UInt8) : List (List UInt8) := chunksFuel data.length size data
+
+/-- MIRROR of `for _, endOffset := range offsets[1:] { value := src[baseOffset:endOffset]; baseOffset = endOffset }`,
+    bloom.go:283-300 -/
+def slices (data : List UInt8) : Nat → List Nat → List (List UInt8)
+  | _, [] => []
+  | base, e :: es => (data.drop base).take (e - base) :: slices data e es
+
+def byteArrayValues (data : List UInt8) : List Nat → List (List UInt8)
+  | [] => []            -- (Go: offsets[0] panics; pages always carry at least one offset)
+  | o :: os => slices data o os
+
+/-- WRITE SIDE. MIRROR `splitBlockEncoding.Encode*`, bloom.go:249-368: the hashes inserted for one
+    page, in order. The 128-entry staging buffer of `splitBlockEncodeUint*` is not modelled
+    (`MultiSum64UintN` over consecutive chunks = `map`). -/
+def hashWrite : PageData → List UInt64
+  | .boolean bits => multiSum64Uint8 bits.length bits           -- EncodeBoolean: hashes the PACKED bytes
+  | .int32 vs | .float vs => multiSum64Uint32 vs.length vs
+  | .int64 vs | .double vs => multiSum64Uint64 vs.length vs
+  | .int96 data => (chunks 12 data).map xxh64
+  | .byteArray data offsets => (byteArrayValues data offsets).map xxh64
+  | .flba data size =>
+    if size = 16 then multiSum64Uint128 (chunks 16 data).length (chunks 16 data)
+    else (chunks size data).map xxh64
+
+/-! ### how the values of a column chunk reach `Page.Data()` -/
+
+def bitsByte : List Bool → Nat
+  | [] => 0
+  | b :: bs => (if b then 1 else 0) + 2 * bitsByte bs
+
+/-- LSB-first bit packing, 8 values per byte, last byte zero padded (boolean column buffers) -/
+def packBits : List Bool → List UInt8
+  | b0 :: b1 :: b2 :: b3 :: b4 :: b5 :: b6 :: b7 :: rest =>
+      UInt8.ofNat (bitsByte [b0, b1, b2, b3, b4, b5, b6, b7]) :: packBits rest
+  | [] => []
+  | bs => [UInt8.ofNat (bitsByte bs)]
+
+def offsetsFrom : Nat → List (List UInt8) → List Nat
+  | base, [] => [base]
+  | base, v :: vs => base :: offsetsFrom (base + v.length) vs
+
+def Value.payloadBytes : Value → List UInt8
+  | .int96 b | .byteArray b | .flba b => b
+  | _ => []
+
+/-- the page data the typed column buffers build from a list of values of one kind -/
+def pageData : Kind → List Value → PageData
+  | .boolean, vs => .boolean (packBits (vs.map (fun v => match v with | .boolean b => b | _ => false)))
+  | .int32, vs => .int32 (vs.map (fun v => match v with | .int32 x => x | _ => 0))
+  | .int64, vs => .int64 (vs.map (fun v => match v with | .int64 x => x | _ => 0))
+  | .float, vs => .float (vs.map (fun v => match v with | .float x => x | _ => 0))
+  | .double, vs => .double (vs.map (fun v => match v with | .double x => x | _ => 0))
+  | .int96, vs => .int96 (vs.flatMap Value.payloadBytes)
+  | .byteArray, vs => .byteArray (vs.flatMap Value.payloadBytes) (offsetsFrom 0 (vs.map Value.payloadBytes))
+  | .flba n, vs => .flba (vs.flatMap Value.payloadBytes) n
+
+/-! ### repaired boolean write side (proposed fix of F3) -/
+
+def byteBits (b : UInt8) : List Bool := (List.range 8).map (fun i => (b.toNat >>> i) % 2 == 1)
+
+/-- all 8 bits of every packed byte, LSB first (padding bits of the last byte included: the
+    `EncodeBoolean(dst, src []byte)` interface does not carry the value count) -/
+def unpackAll (bits : List UInt8) : List Bool := bits.flatMap byteBits
+
+def hashBool (b : Bool) : UInt64 := sum64Uint8 (if b then 1 else 0)
+
+/-- REPAIRED `EncodeBoolean`: unpack the bits, hash one 0/1 byte per bit (what `Value.hash` does). -/
+def hashWriteBoolFixed (bits : List UInt8) : List UInt64 := (unpackAll bits).map hashBool
+
+/-- the whole write side with the boolean case repaired (all other kinds as they are) -/
+def hashWriteRepaired : PageData → List UInt64
+  | .boolean bits => hashWriteBoolFixed bits
+  | pd => hashWrite pd
+
+theorem byteBits_pack8 : ∀ (b0 b1 b2 b3 b4 b5 b6 b7 : Bool),
+    byteBits (UInt8.ofNat (bitsByte [b0, b1, b2, b3, b4, b5, b6, b7])) = [b0, b1, b2, b3, b4, b5, b6, b7] := by
+  decide
+
+/-- unpacking the packed bits gives the values back (followed by the padding bits) -/
+theorem unpack_pack : ∀ (bs : List Bool), (unpackAll (packBits bs)).take bs.length = bs
+  | [] => rfl
+  | [b0] => by revert b0; decide
+  | [b0, b1] => by revert b0 b1; decide
+  | [b0, b1, b2] => by revert b0 b1 b2; decide
+  | [b0, b1, b2, b3] => by revert b0 b1 b2 b3; decide
+  | [b0, b1, b2, b3, b4] => by revert b0 b1 b2 b3 b4; decide
+  | [b0, b1, b2, b3, b4, b5] => by revert b0 b1 b2 b3 b4 b5; decide
+  | [b0, b1, b2, b3, b4, b5, b6] => by revert b0 b1 b2 b3 b4 b5 b6; decide
+  | b0 :: b1 :: b2 :: b3 :: b4 :: b5 :: b6 :: b7 :: rest => by
+    have ih := unpack_pack rest
+    simp only [packBits, unpackAll, List.flatMap_cons, byteBits_pack8, List.length_cons] at ih ⊢
+    have e : rest.length + 1 + 1 + 1 + 1 + 1 + 1 + 1 + 1 = [b0, b1, b2, b3, b4, b5, b6, b7].length + rest.length := by
+      simp only [List.length_cons, List.length_nil]; omega
+    rw [e, List.take_length_add_append, ih]
+    rfl
+
+/-! ### the flat page buffers give the values back -/
+
+theorem chunksFuel_flatten (size : Nat) (hs : 0 < size) :
+    ∀ (vs : List (List UInt8)) (fuel : Nat), vs.length ≤ fuel → (∀ v ∈ vs, v.length = size) →
+      chunksFuel fuel size vs.flatten = vs
+  | [], 0, _, _ => rfl
+  | [], fuel + 1, _, _ => by
+    simp only [chunksFuel, List.flatten_nil, List.length_nil]
+    split
+    · omega
+    · rfl
+  | v :: vs, 0, h, _ => by simp at h
+  | v :: vs, fuel + 1, h, hv => by
+    have hl : v.length = size := hv v (by simp)
+    simp only [chunksFuel, List.flatten_cons, List.length_append]
+    split
+    · rw [List.take_left' hl, List.drop_left' hl,
+        chunksFuel_flatten size hs vs fuel (by simpa using h) (fun w hw => hv w (by simp [hw]))]
+    · omega
+
+theorem flatten_length_const (size : Nat) : ∀ (vs : List (List UInt8)), (∀ v ∈ vs, v.length = size) →
+    vs.flatten.length = size * vs.length
+  | [], _ => by simp
+  | v :: vs, h => by
+    simp only [List.flatten_cons, List.length_append, List.length_cons]
+    rw [h v (by simp), flatten_length_const size vs (fun w hw => h w (by simp [hw])), Nat.mul_succ]
+    omega
+
+theorem chunks_flatten (size : Nat) (hs : 0 < size) (vs : List (List UInt8))
+    (hv : ∀ v ∈ vs, v.length = size) : chunks size vs.flatten = vs := by
+  unfold chunks
+  apply chunksFuel_flatten size hs vs _ _ hv
+  rw [flatten_length_const size vs hv]
+  exact Nat.le_mul_of_pos_left _ hs
+
+def endsFrom : Nat → List (List UInt8) → List Nat
+  | _, [] => []
+  | base, v :: vs => (base + v.length) :: endsFrom (base + v.length) vs
+
+theorem offsetsFrom_eq : ∀ (vs : List (List UInt8)) (base : Nat), offsetsFrom base vs = base :: endsFrom base vs
+  | [], _ => rfl
+  | v :: vs, base => by simp [offsetsFrom, endsFrom, offsetsFrom_eq vs]
+
+theorem slices_flatten : ∀ (vs : List (List UInt8)) (pre : List UInt8),
+    slices (pre ++ vs.flatten) pre.length (endsFrom pre.length vs) = vs
+  | [], _ => rfl
+  | v :: vs, pre => by
+    simp only [endsFrom, slices, List.flatten_cons]
+    have e1 : (pre ++ (v ++ vs.flatten)).drop pre.length = v ++ vs.flatten := List.drop_left' rfl
+    have e2 : pre.length + v.length - pre.length = v.length := by omega
+    rw [e1, e2, List.take_left' rfl]
+    have ih := slices_flatten vs (pre ++ v)
+    rw [List.length_append, List.append_assoc] at ih
+    rw [ih]
+
+theorem byteArrayValues_flatten (vs : List (List UInt8)) :
+    byteArrayValues vs.flatten (offsetsFrom 0 vs) = vs := by
+  rw [offsetsFrom_eq]
+  exact slices_flatten vs []
+
+theorem mem_map_proj {α} (values : List Value) (v : Value) (hm : v ∈ values) (proj : Value → α) (g : α → UInt64)
+    (hg : hashRead v = g (proj v)) : hashRead v ∈ (values.map proj).map g := by
+  rw [hg]; exact List.mem_map_of_mem (List.mem_map_of_mem hm)
 
 end PqModel.Bloom
